@@ -6,7 +6,7 @@ HOOKS = {
     "add_only": True,
 }
 NOTES = ("All checks share one TLA+ specification (spec/) and one Rust harness (harness/). "
-         "fix: commits in /repo: 0d9037c (HashSet order, C07), 5aff6e1 (Compress action panic, C16). "
+         "fix: commits in /repo: 0d9037c (HashSet order, C07), 5aff6e1 (Compress action panic, C16), cb2b1dd (lookup panics, C16), b2b4509 (uncompress_subject digest, C13), 1afb877 + 0386197 (decoder strictness, C06). "
          "See DESIGN.md and known_findings.json.")
 TB = ("Trusted: TLC, the term evaluator (SHA-256 via sha2, CBOR writer, sort), bc-components/dcbor primitives; "
       "bounds: small universes in TLC (2 registers, 2-3 atoms, depth 3-4, shapes <= 5-7 elements) widened by typed concretisation rounds.")
@@ -26,4 +26,5 @@ META.update({
     "C15": dict(text="The walks, digest sets, lookups and typed extraction are specified as recursive operators; for every shape and obscured variant in the bounds the real visitor sequence (digest, level, edge, parent), digest sets for every level limit, lookup answers/errors and extracted values are compared with the specification.", note=TB + " Two open findings in the dcbor dependency (D9a, D9b) are reported as KNOWN-FINDING.", technique=T),
     "C16": dict(text="Every specification action is total (ok or err); every replayed call runs under catch_unwind and a panic is never an allowed outcome; inputs include decorated assertions, node-subject nodes and all obscuration patterns within the bounds.", note=TB + " Stack exhaustion on unbounded nesting is out of scope (the property bounds the depth).", technique=T),
 })
+META["C06"] = dict(text="The decoder of draft section 3 is written as a total function on symbolic wire terms; TLC checks that whatever it accepts re-encodes to the input (modulo the #6.24 alias) and that encode->decode is the identity on every reachable envelope; every single (thorough: double) structural mutation of valid encodings is evaluated to bytes and given to the real decoder under catch_unwind, whose verdict and result must be the specification's.", note=TB + " Byte-level (non structural) mutations are covered by the trace direction (see DESIGN).", technique=T)
 NOT_YET = {}
